@@ -528,6 +528,70 @@ where
     }
 }
 
+#[cfg(feature = "verif")]
+impl<K, V> SkipList<K, V>
+where
+    K: Clone + Ord + Debug + std::hash::Hash + Eq,
+    V: Clone + PartialOrd + Debug,
+{
+    /// Structural invariant check (read-only): level 0 is strictly ordered by (score, key),
+    /// every higher level is a subsequence of level 0, the key index and `length` agree with
+    /// the level-0 chain, and no stored score is incomparable with itself (NaN).
+    /// Returns the level-0 items and the number of nodes per level.
+    pub fn verif_check_invariants(&self) -> std::result::Result<(Vec<(K, V)>, Vec<usize>), String> {
+        let inner = self.inner.try_read().map_err(|_| "skiplist lock held".to_string())?;
+        let mut items: Vec<(K, V)> = Vec::new();
+        let mut ptrs: Vec<*mut SkipListNode<K, V>> = Vec::new();
+        let limit = inner.length + inner.key_index.len() + 16;
+        unsafe {
+            let mut cur = inner.head;
+            while let Some(next) = (&(*cur).forward)[0] {
+                if items.len() > limit { return Err("level 0 chain longer than length (cycle?)".into()); }
+                items.push(((*next).key.clone(), (*next).value.clone()));
+                ptrs.push(next);
+                cur = next;
+            }
+        }
+        for (i, (k, v)) in items.iter().enumerate() {
+            if v.partial_cmp(v) != Some(Ordering::Equal) { return Err(format!("incomparable score stored for {:?}: {:?}", k, v)); }
+            if i > 0 {
+                let (pk, pv) = &items[i - 1];
+                let ord = match pv.partial_cmp(v) { Some(Ordering::Equal) => pk.cmp(k), Some(o) => o, None => return Err("incomparable neighbours".into()) };
+                if ord != Ordering::Less { return Err(format!("level 0 not strictly ordered at {}: {:?}/{:?} then {:?}/{:?}", i, pk, pv, k, v)); }
+            }
+        }
+        if items.len() != inner.length { return Err(format!("length {} but level-0 chain has {}", inner.length, items.len())); }
+        if inner.key_index.len() != items.len() { return Err(format!("key index has {} entries, chain has {}", inner.key_index.len(), items.len())); }
+        for (k, v) in &items {
+            match inner.key_index.get(k) {
+                Some(iv) if iv.partial_cmp(v) == Some(Ordering::Equal) => {}
+                other => return Err(format!("key index disagrees for {:?}: chain {:?}, index {:?}", k, v, other)),
+            }
+        }
+        let mut per_level = vec![items.len()];
+        unsafe {
+            for lvl in 1..MAX_LEVEL {
+                let mut cur = inner.head;
+                let mut pos = 0usize;
+                let mut n = 0usize;
+                while lvl < (*cur).forward.len() {
+                    let next = match (&(*cur).forward)[lvl] { Some(nx) => nx, None => break };
+                    match ptrs[pos..].iter().position(|p| *p == next) {
+                        Some(off) => { pos += off + 1; }
+                        None => return Err(format!("level {} is not a subsequence of level 0", lvl)),
+                    }
+                    n += 1;
+                    cur = next;
+                }
+                if n > 0 && lvl > inner.level { return Err(format!("nodes linked above list level {} at {}", inner.level, lvl)); }
+                if n == 0 && lvl > inner.level { break; }
+                per_level.push(n);
+            }
+        }
+        Ok((items, per_level))
+    }
+}
+
 impl<K, V> Drop for SkipList<K, V> {
     fn drop(&mut self) {
         if let Ok(inner) = Arc::try_unwrap(self.inner.clone()) {
